@@ -25,7 +25,10 @@ class Ctx:
     @property
     def schema(self) -> Schema:
         if self._schema is None:
-            self._schema = Schema(load_ssm(self.digest("kio.schema"), REPO))
+            import hashlib
+            from pathlib import Path
+            ch = hashlib.sha256((Path(__file__).parent / "ssm.py").read_bytes()).hexdigest()[:12]
+            self._schema = Schema(load_ssm(self.digest("kio.schema")[:20] + ch, REPO))
         return self._schema
 
     def memo(self, key, build):
@@ -38,6 +41,11 @@ class Ctx:
     def interp(self):
         from .absint import Interp
         return self.memo("interp", lambda: Interp(self))
+
+    @property
+    def bundle(self) -> dict:
+        from .plans import load_bundle
+        return self.memo("bundle", lambda: load_bundle(self))
 
     @property
     def plans(self):
